@@ -662,7 +662,41 @@ def c107(ctx):
     ctx.declare(R, "prefix compression: shared length, fragment and restart offsets are produced and consumed consistently")
     BB = "sst::block::BlockBuilder::"
     SR = r"sst::block::BlockBuilder::should_restart$"
-    f = ctx.fn(R, BB + "compute_key_frag")
+    # the function that decides how much of the previous key an entry shares: found by what it does (asks should_restart, records restart
+    # offsets), not by its name (compute_key_frag today)
+    pf = ctx.prog.fn(BB + "compute_key_frag")
+    if pf is None:
+        cands = [g_ for g_ in ctx.prog.fns.values() if g_.crate == "sst" and g_.skey.startswith(BB) and P.call_points(g_, SR) and
+                 P.call_points(g_, r"alloc::vec::Vec::push$", arg_pred=K.recv_is_field("restarts"))]
+        pf = cands[0] if len(cands) == 1 else None
+    PF = re.escape(pf.skey) + "$" if pf is not None else BB + "compute_key_frag$"
+    f = pf if pf is not None else ctx.fn(R, BB + "compute_key_frag")
+    usize_form = f is not None and f.locals[0] == "usize"
+
+    def zip_scan(fn_, op_):
+        """op_ is the count() of `a.iter().zip(b.iter()).take_while(|(x, y)| x == y)` over last_key and the key parameter: the length of
+        their common prefix by construction (zip stops at the shorter, take_while at the first difference)"""
+        for s_ in P.origins(fn_, op_):
+            if s_["k"] == "call" and re.search(r"Iterator>?::count$", s_["callee"]):
+                tw = [x_ for x_ in P.origins(fn_, s_["t"]["args"][0]) if x_["k"] == "call" and re.search(r"Iterator>?::take_while$", x_["callee"])]
+                for w_ in tw:
+                    zs = [x_ for x_ in P.origins(fn_, w_["t"]["args"][0]) if x_["k"] == "call" and re.search(r"(^|::)zip$", x_["callee"])]
+                    cl_ok = False
+                    for c_ in ctx.prog.closures_of(fn_):
+                        for b_ in c_.blocks:
+                            for st_ in b_.st:
+                                if st_["s"] == "=" and st_["rv"].get("r") == "bin" and st_["rv"]["op"] == "Eq":
+                                    cl_ok = True
+                            t_ = b_.term
+                            if t_["t"] == "call" and re.search(r"PartialEq.*>::eq$|::eq$", callee_skey(t_) or ""):
+                                cl_ok = True
+                    for z_ in zs:
+                        srcs_ = [x_ for a_ in z_["t"]["args"] for x_ in P.origins(fn_, a_)]
+                        has_last = any(x_["k"] == "field" and x_["f"] == "last_key" for x_ in srcs_) or any(x_["k"] == "param" for x_ in srcs_)
+                        has_key = any(x_["k"] == "param" for x_ in srcs_)
+                        if cl_ok and has_last and has_key and not K.DROPPING_ADAPTERS.search(z_["t"].get("ga") or "".replace("TakeWhile", "")):
+                            return True
+        return False
     if f:
         ctx.calls(R, f, SR)
         pu = ctx.calls(R, f, r"alloc::vec::Vec::push$", arg_pred=K.recv_is_field("restarts"), what="restarts.push")
@@ -673,20 +707,30 @@ def c107(ctx):
             ok = any("buffer" in K.arg_field_names(f, c["pt"], 0) for c in lens)
             ctx.check(R, f, "restart-offset-is-buffer-len", ok, "the recorded restart offset is buffer.len(), the offset of the entry about to be appended",
                       "the restart offset is not the current length of the entry buffer", pt=pt)
-        ret = [(b.idx, j) for b in f.blocks for j, st in enumerate(b.st) if st["s"] == "=" and st["lhs"]["l"] == 0 and not st["lhs"]["p"] and st["rv"]["r"] == "agg"]
-        ctx.floor(R, "compute_key_frag return tuple", len(ret), 1)
+        # the function returns (shared, fragment) -- or the shared length alone, the callers slicing the fragment off themselves
+        if usize_form:
+            ret = [None]
+        else:
+            ret = [(b.idx, j) for b in f.blocks for j, st in enumerate(b.st) if st["s"] == "=" and st["lhs"]["l"] == 0 and not st["lhs"]["p"] and st["rv"]["r"] == "agg"]
+            ctx.floor(R, "compute_key_frag return tuple", len(ret), 1)
         for rp in ret:
-            ops = f.blocks[rp[0]].st[rp[1]]["rv"]["ops"]
+            ops = f.blocks[rp[0]].st[rp[1]]["rv"]["ops"] if rp is not None else [{"k": "copy", "pl": {"l": 0, "p": []}}, None]
             S = K.root_local(f, ops[0])
+            if rp is None:
+                rp = P.return_points(f)[0] if P.return_points(f) else (0, 0)
             sts = _stores(f, S)
             zero = [sp for sp, st in sts if _is_const(st, 0)]
             other = [(sp, st) for sp, st in sts if not _is_const(st, 0)]
             ctx.check(R, f, "restart-shares-nothing", zero and all(_true_edge(f, sp, SR) for sp in zero) and
                       all(P.reach(f, P.after(f, pt), [sp]) is not None or P.reach(f, [sp], [pt]) is not None for pt in pu for sp in zero),
                       "on a restart the shared length is 0 (the key is stored whole)", "the restart branch does not return shared = 0", pt=rp)
-            ctx.check(R, f, "shared-from-scan", len(other) >= 1 and not any(_true_edge(f, sp, SR) for sp, _st in other),
+            zip_direct = not other and S is not None and zip_scan(f, {"k": "copy", "pl": {"l": S, "p": []}})
+            ctx.check(R, f, "shared-from-scan", zip_direct or (len(other) >= 1 and not any(_true_edge(f, sp, SR) for sp, _st in other)),
                       "without a restart the shared length comes from the common-prefix scan", "cannot identify the common-prefix scan result", pt=rp)
             bf = __import__("blue.bounds", fromlist=["BF"]).BF(ctx.prog, f)
+            if other and all(st["rv"]["r"] == "use" and zip_scan(f, st["rv"]["a"]) for _sp, st in other):
+                ctx.ok(R, f, "the shared length is the count of `last_key.zip(key).take_while(equal)`: the common prefix by construction")
+                other = []
             for sp, st in other:
                 C = K.root_local(f, st["rv"].get("a")) if st["rv"]["r"] == "use" else None
                 incs = []
@@ -732,6 +776,8 @@ def c107(ctx):
                     ctx.check(R, f, "scan-compares-same-position", eq, "the counter advances only past a position where key and last_key hold the same byte",
                               "the common-prefix scan does not compare key[i] with last_key[i] at the counter's position", pt=ip)
             # the fragment is key[shared..] for the same shared
+            if ops[1] is None:
+                continue
             good = False
             for src in P.origins(f, ops[1], through_calls=False):
                 if src["k"] == "call" and src["callee"].endswith("index"):
@@ -774,7 +820,7 @@ def c107(ctx):
         g = ctx.fn(R, "<sst::block::BlockBuilder as sst::Builder>::" + m)
         if not g:
             continue
-        ck = ctx.calls(R, g, BB + "compute_key_frag$")
+        ck = ctx.calls(R, g, PF)
         ap = ctx.calls(R, g, BB + "append$")
         ctx.order_chain(R, g, [("compute_key_frag", ck), ("append", ap)])
         for pt in ck:
@@ -786,10 +832,27 @@ def c107(ctx):
         for sp, st in aggs:
             flds = dict(zip(st["rv"].get("fields", ()), st["rv"]["ops"]))
             want = {"shared": "0", "key_frag": "1"}
+            if usize_form:
+                # shared is the function's result; the fragment is key[shared..] for that same value
+                sh_ok = any(q["k"] == "call" and q["pt"] in set(ck) for q in P.origins(g, flds.get("shared")))
+                ctx.check(R, g, "entry-shared", sh_ok, "%s.shared is the prefix function's result" % adt.rsplit("::", 1)[-1],
+                          "%s.shared is not the shared length just computed" % adt.rsplit("::", 1)[-1], pt=sp)
+                fr_ok = False
+                for src in P.origins(g, flds.get("key_frag"), through_calls=False):
+                    if src["k"] == "call" and src["callee"].endswith("index"):
+                        base = P.origins(g, src["t"]["args"][0], through_calls=False)
+                        for r_ in P.origins(g, src["t"]["args"][1], through_calls=False):
+                            if r_["k"] == "agg" and r_.get("adt", "").endswith("RangeFrom") and \
+                                    any(q["k"] == "call" and q["pt"] in set(ck) for q in P.origins(g, r_["st"]["rv"]["ops"][0])) and \
+                                    any(q["k"] == "param" and q["i"] == 2 for q in base):
+                                fr_ok = True
+                ctx.check(R, g, "entry-key_frag", fr_ok, "%s.key_frag is key[shared..] for the same shared length" % adt.rsplit("::", 1)[-1],
+                          "%s.key_frag is not key[shared..] of the shared length just computed" % adt.rsplit("::", 1)[-1], pt=sp)
+                want = {}
             for fld, ix in want.items():
                 ok = False
                 for q in P.origins(g, flds.get(fld)):
-                    if q["k"] == "call" and q["callee"].endswith("compute_key_frag"):
+                    if q["k"] == "call" and q["pt"] in set(ck):
                         ok = True
                 proj_ok = _tuple_field_of(g, flds.get(fld), ix)
                 ctx.check(R, g, "entry-" + fld, ok and proj_ok, "%s.%s is compute_key_frag's .%s" % (adt.rsplit("::", 1)[-1], fld, ix),
